@@ -684,6 +684,43 @@ func TestVMSource_Generator(t *testing.T) {
 
 func TestVMSource_CallMethod(t *testing.T) {
 	tests := sourceTestTable{
+		"method body ends with an if whose else branch returns": {
+			source: `
+				def foo(a: Bool): Int
+					if a
+						5
+					else
+						return 3
+					end
+				end
+				foo(true) * 10 + foo(false)
+			`,
+			wantStackTop: value.SmallInt(53).ToValue(),
+		},
+		"conditional return followed by an explicit final return": {
+			source: `
+				def foo(c: Int): Int
+					return 1 if c < 2
+					return 2
+				end
+				foo(1) * 10 + foo(5)
+			`,
+			wantStackTop: value.SmallInt(12).ToValue(),
+		},
+		"method body ends with a do whose catch returns": {
+			source: `
+				def foo(a: Bool): Int
+					do
+						throw "boom" if a
+						7
+					catch String() as e
+						return 9
+					end
+				end
+				foo(false) * 10 + foo(true)
+			`,
+			wantStackTop: value.SmallInt(79).ToValue(),
+		},
 		"call on overload": {
 			source: `
 				module Foo
